@@ -101,8 +101,8 @@ class LenPrefixed(FileBasedPacketSerializer[bytes, bytes]):
        variant b"seek1": ValueError is raised after file.seek(1) (an error position far behind what was read: with a small
                          receive buffer the remainder does not fit and BufferedStreamDataConsumer raises ValueError)"""
 
-    def __init__(self, limit, variant=b"eager", debug=False):
-        super().__init__(expected_load_error=(ValueError,), limit=limit, debug=debug)
+    def __init__(self, limit, variant=b"eager", debug=False, expected=(ValueError,)):
+        super().__init__(expected_load_error=expected, limit=limit, debug=debug)
         self.variant = variant
         self.log = None        # when a list: (content, answer) of every load_from_file call
 
@@ -147,6 +147,7 @@ class LenPrefixed(FileBasedPacketSerializer[bytes, bytes]):
 
 
 FB_EXPECTED = excodes.caught_by([ValueError])
+FB_EXPECTED_BROAD = excodes.caught_by([Exception])      # expected_load_error=Exception: every load failure is declared
 
 
 class Point(NamedTuple):
@@ -206,6 +207,8 @@ def make_serializer(family, cfg, impl):
         cls = ZlibCompressorSerializer if name == b"zlib" else BZ2CompressorSerializer
         return cls(make_inner(impl[1], debug), debug=debug)
     if family == 7:
+        if list(cfg[1]) == FB_EXPECTED_BROAD:
+            return LenPrefixed(cfg[0], impl[1], debug=debug, expected=(Exception,))
         assert list(cfg[1]) == FB_EXPECTED
         return LenPrefixed(cfg[0], impl[1], debug=debug)
     raise ValueError(f"unknown family {family}")
